@@ -10,3 +10,4 @@ import SuppModel.Props.Extract
 #print axioms SuppModel.Props.Extract.extract_forward_edges
 #print axioms SuppModel.Props.Extract.extract_wf_partial
 #print axioms SuppModel.Props.Extract.extract_layout_partial
+#print axioms SuppModel.Props.Extract.extract_layout_fragment
